@@ -28,8 +28,10 @@ class DispatchCase(Case):
         from dissect.cstruct.types import base
         from dissect.cstruct.types.base import MetaType
 
-        cs = cstruct()
-        cs.load("struct S { uint16 a; uint8 b; }; union U { uint16 w; uint8 h[2]; }; struct C { char c[3]; };", compiled=False)
+        endian = self.which.split(":")[1] if ":" in self.which else "<"
+        cs = cstruct(endian=endian)
+        cs.load("struct S { uint16 a; uint8 b; }; union U { uint16 w; uint8 h[2]; }; struct C { char c[3]; };"
+                "enum E16s : int16 { NEG = -2, POS = 5 }; enum E24 : int24 { N24 = -2 }; flag F8 : uint8 { X = 1 };", compiled=False)
         it = Interp(ctx)
         if self.which == "is_eof":
             D = SBytes.fresh("D")
@@ -45,10 +47,14 @@ class DispatchCase(Case):
             ctx.prove("position-restored", ctx.eq(s.pos, p))
             ctx.cover("done")
             return
-        data = b"\x01\x02\x03\x04\x05"
-        for tname in ("S", "U", "C", "uint16"):
+        long_data = bytes([0x81, 0x02, 0xF3, 0x84, 0x05, 0xFE, 0xFF, 0x88, 0x09, 0x8A, 0x0B, 0x8C, 0x0D, 0x8E, 0x0F, 0x90, 0x11, 0xFE, 0xFF, 0x80, 0x21, 0x22, 0xA3, 0x24, 0x25, 0xA6, 0x27, 0x28, 0xA9, 0x2A, 0x2B])
+        cases = [(t, long_data) for t in ("S", "U", "C", "uint16", "int24", "uint48", "int128", "E16s", "E24", "F8", "int8", "char", "wchar")]
+        # a buffer of exactly the type's size (shortcuts keyed on len(x) == sizeof(T)), sign bit set
+        cases += [(t, long_data[5 : 5 + cs.resolve(t).size]) for t in ("S", "U", "C", "uint16", "int24", "uint48", "int128", "E16s", "E24", "F8", "int8", "char", "wchar")]
+        for tname, data in cases:
             T = cs.resolve(tname)
             want = None
+            tname_ = f"{tname}[{len(data)}B]"
             for kind, mk in (("bytes", lambda: data), ("bytearray", lambda: bytearray(data)), ("memoryview", lambda: memoryview(data)), ("stream", lambda: io.BytesIO(data))):
                 forms = {
                     "T(x)": lambda x: it.call(type(T).__call__, [T, x]),
@@ -61,12 +67,29 @@ class DispatchCase(Case):
                     try:
                         v = fn(mk())
                         got = _show(v)
+                        if len(data) == T.size:
+                            # a buffer of exactly the size of a structure whose only member is a char array is taken as that
+                            # member's value by T(x) (documented shortcut): same value, but no parse bookkeeping (_sizes)
+                            got = (got[0], None)
                     except PyRaise as e:
                         got = f"raises {e.cls.__name__}"
                     if want is None:
                         want = got
-                    ctx.prove(f"{tname}/{kind}/{form}/same-result", got == want, info=f"{got} vs {want}")
+                    ctx.prove(f"{tname_}/{kind}/{form}/same-result", got == want, info=f"{got} vs {want}")
+            # ... and that result is the standard decoding in the current byte order (not just self-consistent)
+            if tname in ("uint16", "int24", "uint48", "int128", "int8", "E16s", "E24", "F8"):
+                base_t = T.type if hasattr(T, "__members__") else T
+                n = base_t.size
+                exp = int.from_bytes(data[:n], "little" if endian == "<" else "big", signed=bool(getattr(base_t, "signed", False)) or base_t.__name__.startswith("int"))
+                ctx.prove(f"{tname_}/standard-decoding", want is not None and _as_int(want) == exp, info=f"{want} expected {exp}")
         ctx.cover("done")
+
+
+def _as_int(shown):
+    v = shown[0]
+    while isinstance(v, tuple) and v and v[0] in ("enum", "int", "BaseType", "Generic"):
+        v = v[-1]
+    return v
 
 
 def _show(v):
